@@ -5,6 +5,16 @@ import "fmt"
 func registry() []PropSpec {
 	return []PropSpec{
 		{
+			ID: "C17",
+			Quick: []HarnessSpec{
+				{Pkg: pkgRefServer, Func: "H17c_q", Unwind: 10, Note: "rawResponseWriter: every sequence of <=4 operations from {Write, WriteHeader, Flush, setRawResponse}"},
+				{Pkg: pkgRefServer, Func: "H17d_q", Unwind: 10, Note: "rawResponseWriter.finish: status unset/201/503, 2 raw header values, 1 trailer, unary identity body of <=2 symbolic bytes, a handler-set header and a handler write that must not survive"},
+				{Pkg: pkgInternal, Func: "H17a_q", Unwind: 12, UnwindFor: map[string]int{"h17a": 44}, Note: "WriteRawStreamContents/WriteRawMessageContents, identity compression: <=2 items, flags 0..300, explicit length any uint32 or computed, payload <=2 symbolic bytes or absent; destination is a recording WriteCloser"},
+			},
+			Stubs: []string{"destination writer = recording stub with a Close method", "bytes.Buffer modelled on its fields"},
+			Out:   []string{"non-identity compressions (third-party code; C20)", "rawRequestSender.RoundTrip (net/http, io.Pipe, goroutines), real sockets"},
+		},
+		{
 			ID: "C12",
 			Quick: []HarnessSpec{
 				{Pkg: pkgRefServer, Func: "H12a_q", Unwind: 40, TimeoutMs: 60000, Solvers: []string{"z3-new", "cvc5-int"}, Split: []SplitDim{{"grpc", 0, 1}, {"nd", 1, 11}, {"unit", 0, 6}}, CaseNote: "case split: protocol, number of digits (1..11 / 1..9) and unit letter (H M S m u n, or an invalid letter); every digit is symbolic (no redundant leading zero)", Note: "extractTimeout on Connect-Timeout-Ms / Grpc-Timeout values"},
